@@ -87,10 +87,10 @@ def generate(tier, rng):
         x = (sx, nx, fx); y = (sy, ny, fy)
         lox, hix = lims(sx, nx); loy, hiy = lims(sy, ny)
         a = structured(rng, lox, hix, nx); b = structured(rng, loy, hiy, ny)
-        yield 'AR %s optimal raw %s %s %s %s %s %s %s' % (op, rng.choice(['operator', 'function']), fm(x), fm(y), rng.choice(ROUNDS), rng.choice(OVFS), L([a]), L([b]))
+        yield 'AR %s optimal raw %s %s %s %s %s %s %s' % (op, rng.choice(['operator', 'function', 'numpy']), fm(x), fm(y), rng.choice(ROUNDS), rng.choice(OVFS), L([a]), L([b]))
         if rng.random() < 0.5:
             # the four extreme-code corners (they bound every other pair) and one more pair, as arrays
-            yield 'AR %s optimal raw %s %s %s %s %s %s %s' % (op, rng.choice(['operator', 'function']), fm(x), fm(y), rng.choice(ROUNDS), rng.choice(OVFS),
+            yield 'AR %s optimal raw %s %s %s %s %s %s %s' % (op, rng.choice(['operator', 'function', 'numpy']), fm(x), fm(y), rng.choice(ROUNDS), rng.choice(OVFS),
                                                               L([lox, lox, hix, hix, a]), L([loy, hiy, loy, hiy, b]))
         if rng.random() < 0.5:
             # arrays of every sign pattern: all on one side of zero, one extreme among small codes, small maximum with a large negative
@@ -99,7 +99,7 @@ def generate(tier, rng):
             k = rng.choice([2, 3, 3, 4])
             aa = [max(lox, min(hix, pick(lox, hix))) for _ in range(k)]
             bb = [max(loy, min(hiy, pick(loy, hiy))) for _ in range(rng.choice([1, k]))]
-            yield 'AR %s optimal raw %s %s %s %s %s %s %s' % (op, rng.choice(['operator', 'function']), fm(x), fm(y), rng.choice(ROUNDS), rng.choice(OVFS), L(aa), L(bb))
+            yield 'AR %s optimal raw %s %s %s %s %s %s %s' % (op, rng.choice(['operator', 'function', 'numpy']), fm(x), fm(y), rng.choice(ROUNDS), rng.choice(OVFS), L(aa), L(bb))
     n_bi = 3000 if tier == 'quick' else 80000
     for _ in range(n_bi):
         s = rng.random() < 0.5
